@@ -80,7 +80,7 @@ pub fn gen(rng: &mut Prng, plan: &mut Plan) {
                     }
                     _ => {}
                 }
-                Step::new("import_bytes").l("b", b).i("kind", rng.below(8) as i128).i("neg", neg as i128)
+                Step::new("import_bytes").l("b", b).i("kind", rng.below(10) as i128).i("neg", neg as i128)
             }
             _ => {
                 // arbitrary delivered u32 words into a live register
@@ -160,6 +160,11 @@ pub fn exec(plan: &Plan) -> RunResult {
                         if num_traits::ToBytes::to_le_bytes(&u) != le || num_traits::ToBytes::to_be_bytes(&u) != be {
                             return Some(("BigUint::ToBytes".into(), "trait export differs from the minimal base-256 digits".into()));
                         }
+                        // native-endian trait methods (little-endian on the only installed target)
+                        let ne = if cfg!(target_endian = "little") { &le } else { &be };
+                        if &num_traits::ToBytes::to_ne_bytes(&u) != ne {
+                            return Some(("BigUint::ToBytes::to_ne_bytes".into(), "native-endian export differs".into()));
+                        }
                         if u.to_u32_digits() != m.0 || u.iter_u32_digits().collect::<Vec<_>>() != m.0 {
                             return Some(("BigUint::to_u32_digits".into(), format!("{:x?} want {:x?}", u.to_u32_digits(), m.0)));
                         }
@@ -186,6 +191,15 @@ pub fn exec(plan: &Plan) -> RunResult {
                         }
                         if num_traits::ToBytes::to_le_bytes(&i) != sle || num_traits::ToBytes::to_be_bytes(&i) != sbe {
                             return Some(("BigInt::ToBytes".into(), "trait export differs from the shortest two's complement".into()));
+                        }
+                        let sne = if cfg!(target_endian = "little") { &sle } else { &sbe };
+                        if &num_traits::ToBytes::to_ne_bytes(&i) != sne {
+                            return Some(("BigInt::ToBytes::to_ne_bytes".into(), "native-endian export differs".into()));
+                        }
+                        let back_i = <BigInt as num_traits::FromBytes>::from_ne_bytes(sne);
+                        let back_u = <BigUint as num_traits::FromBytes>::from_ne_bytes(ne);
+                        if denote_i(&back_i) != mi || denote_u(&back_u) != m {
+                            return Some(("FromBytes::from_ne_bytes".into(), format!("native-endian import of the native-endian export gives {} / {} for {}", denote_i(&back_i).to_dec(), denote_u(&back_u).to_hex(), mi.to_dec())));
                         }
                         None
                     });
@@ -349,11 +363,14 @@ pub fn exec(plan: &Plan) -> RunResult {
                 let b = s.list8("b");
                 let kind = s.int("kind");
                 let sg = s.int("neg") != 0;
-                let names = ["BigUint::from_bytes_le", "BigUint::from_bytes_be", "BigInt::from_signed_bytes_le", "BigInt::from_signed_bytes_be", "BigInt::from_bytes_le", "BigInt::from_bytes_be", "BigUint::FromBytes", "BigInt::FromBytes"];
-                let api = names[(kind as usize).min(7)];
+                let names = ["BigUint::from_bytes_le", "BigUint::from_bytes_be", "BigInt::from_signed_bytes_le", "BigInt::from_signed_bytes_be", "BigInt::from_bytes_le", "BigInt::from_bytes_be", "BigUint::FromBytes", "BigInt::FromBytes", "BigUint::FromBytes::from_ne_bytes", "BigInt::FromBytes::from_ne_bytes"];
+                let api = names[(kind as usize).min(9)];
                 let rev: Vec<u8> = b.iter().rev().copied().collect();
+                let ne: &[u8] = if cfg!(target_endian = "little") { &b } else { &rev };
                 let r = catch(|| -> (RefInt, Option<String>) {
                     match kind {
+                        8 => { let x = <BigUint as num_traits::FromBytes>::from_ne_bytes(ne); (RefInt::new(false, denote_u(&x)), noncanonical_u(&x)) }
+                        9 => { let x = <BigInt as num_traits::FromBytes>::from_ne_bytes(ne); (denote_i(&x), noncanonical_i(&x)) }
                         0 => { let x = BigUint::from_bytes_le(&b); (RefInt::new(false, denote_u(&x)), noncanonical_u(&x)) }
                         1 => { let x = BigUint::from_bytes_be(&rev); (RefInt::new(false, denote_u(&x)), noncanonical_u(&x)) }
                         2 => { let x = BigInt::from_signed_bytes_le(&b); (denote_i(&x), noncanonical_i(&x)) }
@@ -372,8 +389,8 @@ pub fn exec(plan: &Plan) -> RunResult {
                     }
                 };
                 let want = match kind {
-                    0 | 1 | 6 => RefInt::new(false, RefNat::from_bytes_le(&b)),
-                    2 | 3 | 7 => RefInt::from_signed_bytes_le(&b),
+                    0 | 1 | 6 | 8 => RefInt::new(false, RefNat::from_bytes_le(&b)),
+                    2 | 3 | 7 | 9 => RefInt::from_signed_bytes_le(&b),
                     _ => RefInt::new(sg, RefNat::from_bytes_le(&b)),
                 };
                 if let Some(nc) = nc {
